@@ -65,6 +65,55 @@ theorem count_zero (c : Nat) (s : Str) : (Int.ofNat (List.count c s) == 0) = !s.
     simp [h]; omega
   · simp [h, List.count_eq_zero.mpr h]
 
+/-! ### `strings.Split` at one byte -/
+
+theorem splitByte_ne_nil (c : Nat) (s : Str) : splitByte c s ≠ [] := by
+  cases s with
+  | nil => simp [splitByte]
+  | cons x r =>
+    unfold splitByte
+    split
+    · simp
+    · split <;> simp
+
+theorem splitByte_nomem {c : Nat} {s : Str} (h : c ∉ s) : splitByte c s = [s] := by
+  induction s with
+  | nil => simp [splitByte]
+  | cons x r ih =>
+    simp only [List.mem_cons, not_or] at h
+    have hc : x ≠ c := fun e => h.1 e.symm
+    simp [splitByte, hc, ih h.2]
+
+theorem splitByte_length_one {c : Nat} {s : Str} : (splitByte c s).length = 1 ↔ c ∉ s := by
+  induction s with
+  | nil => simp [splitByte]
+  | cons x r ih =>
+    by_cases hc : x = c
+    · have hne := splitByte_ne_nil c r
+      have : (splitByte c r).length ≠ 0 := by
+        intro e; exact hne (List.length_eq_zero_iff.mp e)
+      simp [splitByte, hc]
+      omega
+    · have hlen : (splitByte c (x :: r)).length = (splitByte c r).length := by
+        simp only [splitByte, hc, if_false]
+        split
+        · rename_i h; simp [h]
+        · rename_i h; exact absurd h (splitByte_ne_nil c r)
+      rw [hlen, ih]
+      simp [Ne.symm hc]
+
+theorem splitByte_dot (s : Str) : splitByte 46 s = splitDot s := by
+  induction s with
+  | nil => simp [splitByte, splitDot]
+  | cons x r ih => simp [splitByte, splitDot, ih]
+
+/-- how the result of a generated definition for a Go function returning `(string, error)` reads as
+the model's three-valued result: outer `none` = panic, inner `none` = a non-nil error -/
+def R.ofGen : Option (Option Str) → R
+  | none => .panic
+  | some none => .err
+  | some (some s) => .ok s
+
 /-! ### `strings.ToLower` keeps a non-empty string non-empty -/
 
 theorem lenChange_out_ne_nil : ∀ e ∈ lenChange, e.2 ≠ [] := by decide
